@@ -3,6 +3,7 @@
 //! Subcommands (one file each in src/cmd/) mirror the entry points of the Coq model
 //! (see DESIGN.md section 3.2).
 
+pub mod clientdrv;
 pub mod util;
 pub mod wire;
 
